@@ -92,6 +92,20 @@ func reviveGo(x interface{}) interface{} {
 		switch v["__go"] {
 		case "leafy":
 			return &Leafy{Name: "kid", Count: 3, Ratio: 2.5, Ok: true, Tags: []string{"a", "b"}, URL: "/u", UserID: 7}
+		case "zerostruct":
+			return struct {
+				Orders []int
+				Name   string
+				Count  int
+			}{}
+		case "zeroptr":
+			return &Leafy{}
+		case "somestruct":
+			return struct {
+				Orders []int
+				Name   string
+				Count  int
+			}{Name: "n", Count: 2}
 		case "nan":
 			return math.NaN()
 		case "inf":
